@@ -81,10 +81,13 @@ func checkTypeCase(c TypeCase) (sig, what, status string, ran bool) {
 					}
 				}
 			}()
-			// a predicate is evaluated for several candidate matches: check all prefixes
-			for l := 1; l <= len(text); l++ {
-				budget := 2000
-				Exec(c.Stmts, map[string]Value{"match": VS(text[:l]), "matchLength": VN(l)}, &budget)
+			// a predicate is evaluated for several candidate matches (the scan moves on
+			// after a rejected candidate): check every substring
+			for i := 0; i < len(text); i++ {
+				for j := i + 1; j <= len(text); j++ {
+					budget := 2000
+					Exec(c.Stmts, map[string]Value{"match": VS(text[i:j]), "matchLength": VN(j - i)}, &budget)
+				}
 			}
 		}()
 		if !runnable {
